@@ -101,10 +101,16 @@ def check_got_vs_want(want, got_stdout, got_eval=constants.NOT_EVALED,
                 # allow eval to fallback and save us, but if it fails, do a
                 # diff with stdout
                 try:
-                    got = repr(got_eval)
+                    got_repr = repr(got_eval)
                 except Exception as ex:
                     raise ExtractGotReprException('Error calling repr for {}. Caused by: {!r}'.format(type(got_eval), ex), ex)
+                got = got_repr
                 flag = check_output(got, want, runstate)
+                if not flag and got_eval is not None:
+                    # The REPL (and the builtin doctest module) shows what
+                    # was printed followed by the value of the expression.
+                    got = got_stdout + got_repr + '\n'
+                    flag = check_output(got, want, runstate)
                 if not flag:
                     got = got_stdout
     if not flag:
